@@ -133,6 +133,49 @@ pub fn catalogue() -> Vec<Probe> {
         push(name, "derive the public key of a Secret key".into(), format!("(k: &Key<{va}, Secret>) {{ let _ = k.public_key(); }}"), true);
         push(name, "derive a 'public key' of a Local key".into(), format!("(k: &Key<{va}, Local>) {{ let _ = k.public_key(); }}"), false);
         push(name, "derive a 'public key' of a Public key".into(), format!("(k: &Key<{va}, Public>) {{ let _ = k.public_key(); }}"), false);
+        // ---- other routes to the key bytes: conversions, borrows, accessors (only expose_key() may give them out)
+        for kk in ["Local", "Secret", "PkeSecret"] {
+            for (what, body) in [
+                ("convert into KeyText with .into()", format!("let _: paseto_core::paserk::KeyText<{va}, {kk}> = k.into();")),
+                ("KeyText::from(key)", format!("let _ = paseto_core::paserk::KeyText::<{va}, {kk}>::from(k);")),
+                ("convert into Vec<u8>", "let _: Vec<u8> = k.into();".to_string()),
+                ("convert into Box<[u8]>", "let _: Box<[u8]> = k.into();".to_string()),
+                ("convert into String", "let _: String = k.into();".to_string()),
+                ("borrow as bytes with AsRef", "let _: &[u8] = k.as_ref();".to_string()),
+                ("call as_raw_bytes() on the key", "let _ = k.as_raw_bytes();".to_string()),
+                ("call as_bytes() on the key", "let _ = k.as_bytes();".to_string()),
+                ("call to_bytes() on the key", "let _ = k.to_bytes();".to_string()),
+                ("dereference the key", "let _ = &*k;".to_string()),
+                ("KeyId-like Display of the key via to_string()", "let _ = k.to_string();".to_string()),
+            ] {
+                push(name, format!("{what} ({kk} key)"), format!("(k: Key<{va}, {kk}>) {{ {body} }}"), false);
+            }
+        }
+        // ---- the crate's own public aliases must name the right types
+        {
+            let me = _krate;
+            for (what, body, allowed) in [
+                ("alias: encrypt an UnencryptedToken with a LocalKey", format!("(t: {me}::UnencryptedToken<P>, k: &{me}::LocalKey) {{ let _ = t.encrypt(k); }}"), true),
+                ("alias: decrypt an EncryptedToken with a LocalKey", format!("(t: {me}::EncryptedToken<P>, k: &{me}::LocalKey, v: &NoValidation<P>) {{ let _ = t.decrypt(k, v); }}"), true),
+                ("alias: sign an UnsignedToken with a SecretKey", format!("(t: {me}::UnsignedToken<P>, k: &{me}::SecretKey) {{ let _ = t.sign(k); }}"), true),
+                ("alias: verify a SignedToken with a PublicKey", format!("(t: {me}::SignedToken<P>, k: &{me}::PublicKey, v: &NoValidation<P>) {{ let _ = t.verify(k, v); }}"), true),
+                ("alias: UnencryptedToken is the core local unsealed token", format!("(t: {me}::UnencryptedToken<P>) -> UnsealedToken<{va}, Local, P> {{ t }}"), true),
+                ("alias: UnsignedToken is the core public unsealed token", format!("(t: {me}::UnsignedToken<P>) -> UnsealedToken<{va}, Public, P> {{ t }}"), true),
+                ("alias: EncryptedToken is the core local sealed token", format!("(t: {me}::EncryptedToken<P>) -> SealedToken<{va}, Local, P> {{ t }}"), true),
+                ("alias: SignedToken is the core public sealed token", format!("(t: {me}::SignedToken<P>) -> SealedToken<{va}, Public, P> {{ t }}"), true),
+                ("alias: LocalKey / PublicKey / SecretKey are the core key types", format!("(a: {me}::LocalKey, b: {me}::PublicKey, c: {me}::SecretKey) -> (Key<{va}, Local>, Key<{va}, Public>, Key<{va}, Secret>) {{ (a, b, c) }}"), true),
+                ("alias: sign an UnencryptedToken with a SecretKey", format!("(t: {me}::UnencryptedToken<P>, k: &{me}::SecretKey) {{ let _ = t.sign(k); }}"), false),
+                ("alias: seal an UnencryptedToken with a SecretKey", format!("(t: {me}::UnencryptedToken<P>, k: &{me}::SecretKey) {{ let _ = t.seal(k, b\"\"); }}"), false),
+                ("alias: encrypt an UnsignedToken with a LocalKey", format!("(t: {me}::UnsignedToken<P>, k: &{me}::LocalKey) {{ let _ = t.encrypt(k); }}"), false),
+                ("alias: seal an UnsignedToken with a LocalKey", format!("(t: {me}::UnsignedToken<P>, k: &{me}::LocalKey) {{ let _ = t.seal(k, b\"\"); }}"), false),
+                ("alias: verify an EncryptedToken", format!("(t: {me}::EncryptedToken<P>, k: &{me}::PublicKey, v: &NoValidation<P>) {{ let _ = t.verify(k, v); }}"), false),
+                ("alias: decrypt a SignedToken", format!("(t: {me}::SignedToken<P>, k: &{me}::LocalKey, v: &NoValidation<P>) {{ let _ = t.decrypt(k, v); }}"), false),
+                ("alias: sign with a PublicKey", format!("(t: {me}::UnsignedToken<P>, k: &{me}::PublicKey) {{ let _ = t.sign(k); }}"), false),
+                ("alias: KeyId / KeyText / SealedKey are the core PASERK types", format!("(a: {me}::KeyId<Local>, b: {me}::KeyText<Secret>, c: {me}::SealedKey) -> (paseto_core::paserk::KeyId<{va}, Local>, paseto_core::paserk::KeyText<{va}, Secret>, SealedKey<{va}>) {{ (a, b, c) }}"), true),
+            ] {
+                push(name, what.to_string(), body, allowed);
+            }
+        }
         // ---- tokens: unsealed ones cannot be serialised; sealed internals are private
         for purpose in ["Local", "Public"] {
             push(name, format!("to_string an unsealed {purpose} token"), format!("(t: &UnsealedToken<{va}, {purpose}, P>) {{ let _ = t.to_string(); }}"), false);
